@@ -26,7 +26,12 @@ def render(ead, order=None, continuation=None, comments=False, models="after", r
     lines = []
 
     def emit(tokens):
-        if continuation and len(tokens) > continuation:
+        if continuation == "lone" and len(tokens) > 3:
+            # a continued line that holds nothing but the continuation character
+            lines.append(" ".join(tokens[:3]) + " \\")
+            lines.append("\\")
+            lines.append(" " + " ".join(tokens[3:]))
+        elif continuation and continuation != "lone" and len(tokens) > continuation:
             lines.append(" ".join(tokens[:continuation]) + " \\")
             lines.append(" " + " ".join(tokens[continuation:]))
         else:
